@@ -268,7 +268,7 @@ static void
 one_case (int m, int kind, int pli, int ep)
 {
   char ph[700], sig[220], rp[48];
-  size_t pl = (size_t) plens[pli];
+  size_t pl = pli >= 1000 ? (size_t) (pli - 1000) : (size_t) plens[pli];
   if (kind == K_TOOLONG)
     pl = 600;
   vh_fill (ph, pl, 'P');
@@ -593,6 +593,15 @@ main (int argc, char **argv)
                              vh_methods[m].name, NKIND, VH_SCAN_STACK ? ", 1 MiB call stack" : "");
               }
           }
+  if (vh_thorough)
+    for (int m = 0; m < M_COUNT && !vh_expired (); m++)
+      for (int len = 6; len <= 511; len++)
+        {
+          if (m == M_SUNMD5 && len % 4)
+            continue;
+          if (vh_mine (idx++))
+            one_case (m, K_SUCCESS, 1000 + len, len % 3);
+        }
   vh_done ();
   return 0;
 }
